@@ -15,8 +15,30 @@ VARIABLES l, file, first
 
 IsPerm(obs, cs) == Len(obs) = Len(cs) /\ {obs[i] : i \in 1..Len(obs)} = {cs[i] : i \in 1..Len(cs)}
 
+Set(sq) == {sq[i] : i \in 1..Len(sq)}
+
+\* a load through a caller's filter (kind = "filtered"): the harness logs what the plain load of the same file says -
+\* xr (pairs <<number, container or 0>> of the cross-reference table), pcontainers, uids (numbers loaded), ghosts -
+\* and what the (pure) filter drops among them (dropset).  ParallelLoad!Finish with drop: only kept object streams hand a
+\* block in; ParallelLoad!FilterRestricts: a listed object arrives exactly when the plain load has it and neither it nor
+\* its container is dropped; the kept objects are those of the plain load (lhash = exphash, digests of the projection).
+JudgeFiltered(rec, firsthash) ==
+    LET D == Set(rec.dropset)
+        kept == Set(rec.pcontainers) \ D
+        uids == Set(rec.uids)
+        ids == Set(rec.ids)
+        exp(p) == p[1] \in uids /\ p[1] \notin D /\ (p[2] = 0 \/ p[2] \notin D)
+    IN IF rec.res # "ok" THEN (IF rec.seqres = rec.res THEN "ok-both-fail" ELSE "result-differs-from-sequential")
+       ELSE IF ~(Len(rec.observed) = Cardinality(kept) /\ Set(rec.observed) = kept) THEN "blocks-not-the-kept-containers"
+       ELSE IF rec.hash # rec.seqhash THEN "differs-from-sequential"
+       ELSE IF rec.hash # firsthash THEN "differs-between-loads"
+       ELSE IF \E i \in 1..Len(rec.xr) : exp(rec.xr[i]) # (rec.xr[i][1] \in ids) THEN "filter-not-a-restriction"
+       ELSE IF rec.lhash # rec.exphash THEN "filtered-content-differs-from-plain"
+       ELSE IF D # {} THEN "ok-filtered-drop" ELSE "ok-filtered"
+
 Judge(rec, firsthash) ==
-    IF rec.res # "ok" THEN (IF rec.seqres = rec.res THEN "ok-both-fail" ELSE "result-differs-from-sequential")
+    IF rec.kind = "filtered" THEN JudgeFiltered(rec, firsthash)
+    ELSE IF rec.res # "ok" THEN (IF rec.seqres = rec.res THEN "ok-both-fail" ELSE "result-differs-from-sequential")
     ELSE IF ~IsPerm(rec.observed, rec.containers) THEN "blocks-not-a-permutation"
     ELSE IF rec.hash # rec.seqhash THEN "differs-from-sequential"
     ELSE IF rec.hash # firsthash THEN "differs-between-loads"
